@@ -14,8 +14,8 @@ from . import _simcases as S
 
 RULE = (
     "L2 case = one screening simulation (tolerance in {1e-2,1e-3,1e-4}, step size / drag variations, with/without "
-    "terminals and holes, static/ramped field), a forced non-convergence run (tiny iteration budget), or a "
-    "screening-off run; L1 case = 60 random (currents, areas, sites, evaluation points) sets through the real kernel. "
+    "terminals and holes, static/ramped field, length units um/nm/mm, ordinary and very weak (1e-8..1e-6 Bc2) fields), a forced non-convergence run (tiny iteration budget), or a "
+    "screening-off run (fresh, or started from a seed solution computed with screening); L1 case = 60 random (currents, areas, sites, evaluation points) sets through the real kernel. "
     "non-trivial = >= 5 accepted screening steps checked (L2) / kernel compared (L1); distinct = distinct spec"
 )
 REQUIRED_COUNTERS = ["iterations_checked", "accepted_steps_checked", "kernel_cases", "nonconvergence_runs", "zero_induced_checks"]
@@ -40,6 +40,9 @@ def gen_cases(tier, seed):
     for k in range(n):
         dev = _scr_device(rng, "tiny" if tier == "quick" else str(rng.choice(["tiny", "small"])))
         tol = float([1e-2, 1e-3, 1e-4, 1e-3][k % 4])
+        lu = ["um", "nm", "um", "mm"][k % 4]
+        if lu != "um":
+            dev = zoo.scale_device_spec(dev, {"nm": 1e3, "mm": 1e-3}[lu], lu)
         o = dict(solve_time=1.0 if tier == "quick" else 2.0, dt_init=1e-3, dt_max=float(rng.choice([0.02, 0.05])), adaptive=bool(k % 3 != 2),
                  save_every=10, field_units="mT", current_units="uA", output="file", include_screening=True, screening_tolerance=tol,
                  max_iterations_per_step=2000, screening_step_size=float(rng.choice([0.1, 0.05, 0.2])), screening_step_drag=float(rng.choice([0.5, 0.7, 1.0])))
@@ -48,6 +51,18 @@ def gen_cases(tier, seed):
         drive = {"A": S.field_spec(rng, dev, o, ["uniform", "ramp", "uniform", "loop"][k % 4], b=float(rng.choice([0.15, 0.3]))),
                  "currents": S.current_spec(rng, dev, o, "const" if dev["terminals"] else "none", strength=0.1)}
         cases.append({"layer": "L2", "kind": "screening", "device": dev, "options": o, "drive": drive, "monitors": ["screening"], "cost": 60})
+    nw = 2 if tier == "quick" else 10
+    for k in range(nw):
+        # very weak drive: the induced potential is many orders below xi*Bc2, the convergence test is still a relative one
+        dev = _scr_device(rng, "tiny")
+        dev["terminals"] = []
+        lu = ["um", "nm", "mm"][k % 3]
+        if lu != "um":
+            dev = zoo.scale_device_spec(dev, {"nm": 1e3, "mm": 1e-3}[lu], lu)
+        o = dict(solve_time=0.6, dt_init=1e-3, dt_max=0.05, adaptive=True, save_every=10, field_units="mT", current_units="uA", output="file",
+                 include_screening=True, screening_tolerance=float([1e-3, 1e-4][k % 2]), max_iterations_per_step=2000)
+        drive = {"A": S.field_spec(rng, dev, o, "uniform", b=float([1e-7, 1e-6, 1e-8][k % 3]))}
+        cases.append({"layer": "L2", "kind": "screening", "weak": True, "device": dev, "options": o, "drive": drive, "monitors": ["screening"], "cost": 30})
     m = 2 if tier == "quick" else 8
     for k in range(m):
         dev = _scr_device(rng, "tiny")
@@ -60,6 +75,13 @@ def gen_cases(tier, seed):
         o = S.base_options(rng, adaptive=True, steps=60)
         drive = {"A": S.field_spec(rng, dev, o, "uniform", b=0.3)}
         cases.append({"layer": "L2", "kind": "off", "device": dev, "options": o, "drive": drive, "monitors": ["screening"], "cost": 5})
+    for k in range(1 if tier == "quick" else 6):
+        # screening off, started from a seed solution that was computed WITH screening
+        dev = _scr_device(rng, "tiny")
+        o = dict(solve_time=0.3, dt_init=1e-3, dt_max=0.05, adaptive=True, save_every=5, field_units="mT", current_units="uA", output="file",
+                 include_screening=True, screening_tolerance=1e-3, max_iterations_per_step=2000)
+        drive = {"A": S.field_spec(rng, dev, o, "uniform", b=0.3), "currents": S.current_spec(rng, dev, o, "const" if dev["terminals"] else "none", strength=0.1)}
+        cases.append({"layer": "L2", "kind": "off_seeded", "device": dev, "options": o, "drive": drive, "monitors": ["screening"], "cost": 20})
     for k in range(6 if tier == "quick" else 40):
         cases.append({"layer": "L1", "n": 60 if tier == "quick" else 150, "seed": int(rng.integers(1 << 30)), "cost": 10})
     return cases
@@ -143,10 +165,31 @@ def run_case(spec):
                             out["violations"].append({"kind": "induced_nonzero_without_screening", "mechanism": "induced_nonzero_without_screening", "detail": {"frame": key}})
                             break
 
-    out = S.run_sim_case(spec, "C13", extra_listeners=[tm], post=post)
+    run_kwargs = {}
+    if spec["kind"] == "off_seeded":
+        import copy
+
+        r0 = sim.run_sim(spec, [], keep_dir=True)
+        if r0.refused:
+            return {"violations": [], "counters": {"refused_mesh": 1}, "classes": ["refused"], "nontrivial": False}
+        if r0.exception is not None or r0.solution is None:
+            return {"status": "harness_error", "error": "seed run failed: " + repr(r0.exception)[:200]}
+        if not np.any(np.asarray(r0.solution.tdgl_data.induced_vector_potential) != 0):
+            return {"status": "harness_error", "error": "seed run has no induced potential"}
+        spec = copy.deepcopy(spec)
+        spec["options"]["include_screening"] = False
+        spec["kind"] = "off"
+        spec["seeded"] = True
+        run_kwargs = dict(device=r0.device, seed_solution=r0.solution)
+    out = S.run_sim_case(spec, "C13", extra_listeners=[tm], post=post, **run_kwargs)
+    if run_kwargs:
+        import shutil
+
+        shutil.rmtree(r0.outdir, ignore_errors=True)
+        out.setdefault("counters", {})["seeded_screening_off_runs"] = 1
     if out.get("status") == "harness_error":
         return out
     C = out["counters"]
-    out["classes"] = ["L2/" + spec["kind"], "tol=%g" % spec["options"].get("screening_tolerance", 0)] + S.classes_of(spec)[:4]
+    out["classes"] = ["L2/" + spec["kind"], "tol=%g" % spec["options"].get("screening_tolerance", 0), "length_units=" + spec["device"].get("length_units", "um"), "weak_field=" + str(bool(spec.get("weak"))), "seeded=" + str(bool(spec.get("seeded")))] + S.classes_of(spec)[:4]
     out["nontrivial"] = C.get("accepted_steps_checked", 0) >= 5 or C.get("nonconvergence_runs", 0) > 0 or C.get("zero_induced_checks", 0) > 5
     return out
